@@ -1,6 +1,6 @@
 (* C08 — property theorems (statements only; proofs live in Proofs*.v).  See notes/C08.md for the status of each. *)
 From Coq Require Import List ZArith QArith Qabs Bool.
-Require Import QV.C08.Model QV.C08.Spec QV.C08.Wf QV.C08.Proofs QV.C08.ProofsVec QV.C08.ProofsRev QV.C08.ProofsConst QV.C08.ProofsTotal QV.C08.ProofsProper QV.C08.ProofsCtor QV.C08.Hist QV.C08.ProofsHist QV.C08.ProofsTrafo QV.C08.ProofsConstT QV.C08.ProofsTotalT QV.C08.ProofsTable QV.C08.ProofsPar.
+Require Import QV.C08.Model QV.C08.Spec QV.C08.Wf QV.C08.Proofs QV.C08.ProofsVec QV.C08.ProofsRev QV.C08.ProofsConst QV.C08.ProofsTotal QV.C08.ProofsProper QV.C08.ProofsCtor QV.C08.Hist QV.C08.ProofsHist QV.C08.ProofsTrafo QV.C08.ProofsConstT QV.C08.ProofsTotalT QV.C08.ProofsTable QV.C08.ProofsPar QV.C08.ProofsOp.
 Import ListNotations.
 Open Scope Q_scope.
 
@@ -175,6 +175,18 @@ Theorem C08_from_parallel : forall l w w', (2 <= length l)%nat ->
   forall c t, sample w' c t = sample w c t.
 Proof. exact from_parallel_sound. Qed.
 Print Assumptions C08_from_parallel.
+
+(* from_operator: constant folding of both sides (the rhs dict has no repeated channel: always so for a Python dict) *)
+Theorem C08_from_operator_const : forall l o r dl dr w', okb l = true -> okb r = true ->
+  duration l == duration r -> cvd l = Some dl -> cvd r = Some dr -> NoDup (keys dr) ->
+  from_operator l o r = OK w' -> forall c t,
+  inb c (channels (WArith l o r)) = true -> 0 <= t -> t < duration l ->
+  oQeq (sample w' c t) (sample (WArith l o r) c t).
+Proof. exact from_operator_const_sound. Qed.
+Print Assumptions C08_from_operator_const.
+Theorem C08_from_operator_plain : forall l o r, (cvd l = None \/ cvd r = None) -> from_operator l o r = mk_arith l o r.
+Proof. exact from_operator_plain. Qed.
+Print Assumptions C08_from_operator_plain.
 
 Definition C08_constructors_statement : Prop :=
   forall r w wp, build r = OK w -> build_plain r = OK wp -> forall c t,
